@@ -330,20 +330,81 @@ func vpC31BigBuf() []byte {
 	return vpC31Big
 }
 
-// vpC31SendRefused checks that Send refuses n > max bytes without writing anything.
+// vpC31SendRefused checks that Send refuses n > max bytes without writing
+// anything: a receiver already waiting on the other end must see the follow-up
+// frame as the very next thing on the stream.
 func vpC31SendRefused(src, dst *QuicClient, n int, follow []byte) error {
-	serr, trouble := vpC31Await("oversize send", func() error { return src.Send(vpC31BigBuf()[:n]) })
+	type recvd struct {
+		r       *vpC31Received
+		trouble error
+	}
+	recvCh := make(chan recvd, 1)
+	go func() {
+		r, trouble := vpC31Recv(dst, TransportMessageMaxSize)
+		recvCh <- recvd{r, trouble}
+	}()
+	sendCh := make(chan error, 1)
+	go func() { sendCh <- src.Send(vpC31BigBuf()[:n]) }()
+	leaked := func(got recvd) error {
+		if got.trouble != nil {
+			return got.trouble
+		}
+		return fmt.Errorf("Send of %d bytes (maximum %d) put bytes on the stream: the receiver saw msg=%v err=%v before any legal frame was sent",
+			n, TransportMessageMaxSize, got.r.msg != nil, got.r.err)
+	}
+	select {
+	case got := <-recvCh:
+		return leaked(got)
+	case serr := <-sendCh:
+		if serr == nil {
+			return fmt.Errorf("Send accepted %d bytes (maximum %d)", n, TransportMessageMaxSize)
+		}
+		if !vpC31IsSizeVerdict(serr) {
+			select {
+			case got := <-recvCh:
+				return leaked(got)
+			default:
+			}
+			return vpC31Troublef("oversize send: %v", serr)
+		}
+	case <-time.After(vpC31Guard):
+		return vpC31Troublef("oversize send did not return")
+	}
+	serr, trouble := vpC31Await("follow-up send", func() error { return src.Send(follow) })
 	if trouble != nil {
 		return trouble
 	}
-	if serr == nil {
-		return fmt.Errorf("Send accepted %d bytes (maximum %d)", n, TransportMessageMaxSize)
+	if serr != nil {
+		return vpC31Troublef("follow-up send: %v", serr)
 	}
-	if !vpC31IsSizeVerdict(serr) {
-		return vpC31Troublef("oversize send: %v", serr)
+	select {
+	case got := <-recvCh:
+		if got.trouble != nil {
+			return got.trouble
+		}
+		if got.r.err != nil && !vpC31IsSizeVerdict(got.r.err) {
+			return vpC31Troublef("receive after refused send: %v", got.r.err)
+		}
+		if got.r.err != nil || got.r.msg == nil || !bytes.Equal(got.r.msg.Data, follow) {
+			return fmt.Errorf("after Send refused %d bytes the next frame (%d bytes) was not delivered intact: %v", n, len(follow), got.r.err)
+		}
+		return nil
+	case <-time.After(vpC31Guard):
+		return vpC31Troublef("receive after refused send did not return")
 	}
-	// nothing may have been written: the next frame arrives first
-	return vpC31Transfer(src, dst, follow, TransportMessageMaxSize)
+}
+
+// vpC31BadLimit: limits outside 1..TransportMessageMaxSize are refused at once,
+// before the stream is touched (no transport error is possible on that path).
+func vpC31BadLimit(dst *QuicClient, bad uint32) error {
+	r, trouble := vpC31Recv(dst, bad)
+	if trouble != nil {
+		return trouble
+	}
+	if r.err == nil || r.msg != nil || !vpC31IsSizeVerdict(r.err) {
+		return fmt.Errorf("receiveWithLimit(%d) did not refuse the limit: msg=%v err=%v", bad, r.msg != nil, r.err)
+	}
+	return nil
 }
 
 func vpC31Size(t *rapid.T, label string) int {
@@ -406,7 +467,7 @@ func TestVP_C31_frame_roundtrip(t *testing.T) {
 		c.Require("size>4MiB")
 	}
 	c.Assume("loopback UDP (127.0.0.1) is available to the test process; transport I/O errors and liveness-guard expiries are reported as inconclusive, not as violations")
-	kit.SetChecks(kit.N(24, 360))
+	kit.SetChecks(kit.N(40, 480))
 	troubled := false
 	rapid.Check(t, func(rt *rapid.T) {
 		if troubled {
@@ -473,9 +534,8 @@ func TestVP_C31_frame_roundtrip(t *testing.T) {
 			case "bad-limit":
 				// limits outside 1..max are refused without touching the stream
 				bad := rapid.SampledFrom([]uint32{0, TransportMessageMaxSize + 1, 0xffffffff}).Draw(rt, l+"bad")
-				m, err := dst.receiveWithLimit(bad)
-				if err == nil || m != nil {
-					rt.Fatalf("receiveWithLimit(%d) returned %v, %v", bad, m, err)
+				if !vpC31Settle(t, rt, &troubled, vpC31BadLimit(dst, bad)) {
+					return
 				}
 				follow := vpC31Fill(seed, rapid.IntRange(1, 4096).Draw(rt, l+"follow"))
 				if !vpC31Settle(t, rt, &troubled, vpC31Transfer(src, dst, follow, TransportMessageMaxSize)) {
